@@ -511,6 +511,9 @@ func keyOfSameMap(k, m ssa.Value, seen map[ssa.Value]bool) bool {
 		// element of a slice: every element of the slice must be a key of m
 		if x.Op == token.MUL {
 			if ia, ok := x.X.(*ssa.IndexAddr); ok {
+				if km, _, ok := keysCallOf(ia.X); ok {
+					return sameColl(km, m)
+				}
 				els, spreads, ok := elementsOf(ia.X, map[ssa.Value]bool{})
 				if !ok || len(spreads) > 0 || len(els) == 0 {
 					return false
@@ -1347,6 +1350,23 @@ func (w *World) nonNegValue(v ssa.Value, depth int, seen map[ssa.Value]bool) boo
 	case *ssa.Call:
 		n := calleeName(x)
 		if n == "builtin:len" || n == "builtin:cap" || n == "unicode/utf8.RuneCountInString" {
+			return true
+		}
+		if n == "builtin:max" {
+			// non-negative as soon as one operand is
+			for _, a := range x.Call.Args {
+				if w.nonNegValue(a, depth+1, map[ssa.Value]bool{}) {
+					return true
+				}
+			}
+			return false
+		}
+		if n == "builtin:min" {
+			for _, a := range x.Call.Args {
+				if !w.nonNegValue(a, depth+1, seen) {
+					return false
+				}
+			}
 			return true
 		}
 		if callee := x.Call.StaticCallee(); callee != nil && callee.Blocks != nil && w.PkgOfFn(callee) != nil {
